@@ -65,8 +65,26 @@ func mkInput(t, it int) []byte {
 		b = append(b, ln(2, []byte{0x08})...)
 		b = append(b, ln(2, vi(1, 903))...)
 	}
+	if t == 1 && it == 0 {
+		// thread 1's first input ends with TWO empty nested elements (each must get a result of its own: whatever is
+		// shared between them goes back to the pool twice when the parent is closed)
+		b = append(b, ln(2, nil)...)
+		b = append(b, ln(2, nil)...)
+	}
 	b = append(b, ln(3, []byte(fmt.Sprintf("thread-%d-iteration-%d", t, it)))...)
 	return b
+}
+
+// rejectedInput: a valid prefix (two values of tag 1, a string) followed by a truncated varint. The last thread offers it
+// to the shared decoder before its own work: the decode must fail, and nothing of the accepted prefix may show up in any
+// later result of any thread.
+func rejectedInput() []byte {
+	var b []byte
+	b = append(b, vi(1, 999999)...)
+	b = append(b, vi(1, 0)...)
+	b = append(b, ln(3, []byte("from-the-rejected-input"))...)
+	b = append(b, ln(2, vi(1, 424242))...)
+	return append(b, 0x08, 0x80)
 }
 
 type scenario struct {
@@ -186,6 +204,14 @@ func mkHarness(sc scenario) func() vsync.Harness {
 						vsync.Failf("panic", "T%d: %v | %s", t, p, shortStack())
 					}
 				}()
+				if t == sc.threads-1 {
+					vsync.Point("api:Decode(rejected input)")
+					bad := rejectedInput()
+					if res, err := dec.Decode(bad); err == nil {
+						// the lazy decoder may accept what it does not look at; then the result is simply closed
+						_ = res.Close()
+					}
+				}
 				for it := 0; it < sc.iters; it++ {
 					buf := append([]byte{}, inputs[t][it]...)
 					f := refs[t][it]
